@@ -1,6 +1,6 @@
 (* C11 - request/response calls get exactly their responses and leave nothing behind. *)
 From Coq Require Import NArith ZArith List Bool.
-From Verif Require Import Generated.GenConstants Model.Conn Proofs.ConnCalls.
+From Verif Require Import Generated.GenConstants Model.Conn Proofs.ConnCalls Proofs.ConnLeak.
 Import ListNotations.
 Open Scope Z_scope.
 
@@ -52,4 +52,59 @@ Proof. exact call_timer_due_iff. Qed.
 Definition mk ty tag : msg := mkMsg ty true tag 0 NameEmpty false.
 Example C11_collect_example :
   collect (PTyNot 19) (PTyIs 19) [mk 16 1; mk 16 2; mk 19 0; mk 16 3] = [mk 16 1; mk 16 2].
+Proof. vm_compute. reflexivity. Qed.
+
+(* ---- over all runs: what a call leaves behind.  res c cid = some handler, the waiter or an armed timer of call cid exists in c *)
+(* the wake-up that ends a request/response task - with its result, a time-out, the caller's cancellation or the connection's
+   error - is the task's last step, leaves nothing of the call registered, and nothing of it ever comes back *)
+Theorem C11_call_leaves_nothing : forall n e ka scr l1 c1 os1 cid c2 o l2 c3 os3,
+  run (init n e ka scr) l1 = Some (c1, os1) -> step c1 (LWake (TCall cid)) = Some (c2, o) -> run c2 l2 = Some (c3, os3) ->
+  (exists r, o = [OTaskDone (TCall cid) r]) /\ ~ res c2 cid /\ ~ res c3 cid.
+Proof. exact call_leaves_nothing. Qed.
+(* a call whose request could not be written ends at once and has registered nothing *)
+Theorem C11_unsent_call_registers_nothing : forall n e ka scr l1 c1 os1 send types ap st tmo c2 o t r l2 c3 os3,
+  run (init n e ka scr) l1 = Some (c1, os1) -> step c1 (LCallStart send types ap st tmo) = Some (c2, o) ->
+  In (OTaskDone t r) o -> run c2 l2 = Some (c3, os3) ->
+  t = TCall (next_cid c1) /\ ~ res c2 (next_cid c1) /\ ~ res c3 (next_cid c1).
+Proof. exact unsent_call_registers_nothing. Qed.
+(* the library's own calls: hello / login inside finish_connection and the request of disconnect() *)
+Theorem C11_hello_call_leaves_nothing : forall n e ka scr l1 c1 os1 cid c2 o l2 c3 os3,
+  run (init n e ka scr) l1 = Some (c1, os1) -> pc (t_finish c1) = PF_Hello cid ->
+  step c1 (LWake TFinish) = Some (c2, o) -> run c2 l2 = Some (c3, os3) -> ~ res c2 cid /\ ~ res c3 cid.
+Proof. exact hello_call_leaves_nothing. Qed.
+Theorem C11_disconnect_call_leaves_nothing : forall n e ka scr l1 c1 os1 cid c2 o l2 c3 os3,
+  run (init n e ka scr) l1 = Some (c1, os1) -> pc (t_disc c1) = PD_Resp cid ->
+  step c1 (LWake TDisc) = Some (c2, o) -> run c2 l2 = Some (c3, os3) -> ~ res c2 cid /\ ~ res c3 cid.
+Proof. exact disconnect_call_leaves_nothing. Qed.
+(* a step never gives an existing call a handler, waiter or timer it did not have: calls cannot disturb each other's registrations *)
+Theorem C11_resources_only_shrink : forall c l c' o cid,
+  OT c -> step c l = Some (c', o) -> (cid < next_cid c)%nat -> res c' cid -> res c cid.
+Proof. intros c l c' o cid HO E L H. destruct (step_R c l c' o HO E) as [Q1 _]. exact (Q_res c c' cid Q1 L H). Qed.
+Theorem C11_call_handlers_typed : forall n e ka scr ls c os ty cid,
+  run (init n e ka scr) ls = Some (c, os) -> In (ty, HCall cid) (handlers c) -> exists k, get_call c cid = Some k /\ In ty (c_types k).
+Proof. exact call_handlers_typed. Qed.
+
+(* non-vacuity: a connected session, one call; what is registered for it before and after each kind of ending *)
+Definition hello11 : msg := mkMsg T_HELLO_RESP true 0 1 NameEmpty false.
+Definition connect11 : list label :=
+  [LStart; LResolveDone None 1; LWake TStart; LTcpDone None; LWake TStart; LIntr true;
+   LFinish false; LMade; LMadeWaiter; LWake TFinish; LData [DFrame hello11]; LWake TFinish; LIntr false].
+Definition registered11 (ls : list label) :=
+  option_map (fun r => let c := fst r in
+                       (has_handler c 1, existsb (Nat.eqb 1) (waiters c),
+                        existsb (fun k => Nat.eqb (c_id k) 1 && match c_timer k with Some _ => true | None => false end) (calls c)))
+             (run (init false false 20480 []) ls).
+Definition call11 := LCallStart [T_PING_REQ] [T_PING_RESP] PAny PAny 1024.
+Example C11_registered_while_waiting : registered11 (connect11 ++ [call11]) = Some (true, true, true).
+Proof. vm_compute. reflexivity. Qed.
+Example C11_nothing_after_timeout :
+  registered11 (connect11 ++ [call11; LAdvance 1024; LTimer (TkCall 1); LWake (TCall 1)]) = Some (false, false, false).
+Proof. vm_compute. reflexivity. Qed.
+Example C11_nothing_after_cancel : registered11 (connect11 ++ [call11; LCancel (TCall 1); LWake (TCall 1)]) = Some (false, false, false).
+Proof. vm_compute. reflexivity. Qed.
+Example C11_nothing_after_close :
+  registered11 (connect11 ++ [call11; LLost (Some (Raw RReset)); LConnLostCb; LWake (TCall 1)]) = Some (false, false, false).
+Proof. vm_compute. reflexivity. Qed.
+Example C11_nothing_after_result :
+  registered11 (connect11 ++ [call11; LData [DFrame (mkMsg T_PING_RESP true 0 0 NameEmpty false)]; LWake (TCall 1)]) = Some (false, false, false).
 Proof. vm_compute. reflexivity. Qed.
